@@ -12,6 +12,10 @@ for sid in sorted(os.listdir(os.path.join(ROOT, 'seeded'))):
     files = sorted(set(re.findall(r'^\+\+\+ b/(\S+)', patch, re.M)))
     need = (m.get('what_it_needs') or '').strip().split('\n')
     first = next((l.strip() for l in need if l.strip() and not set(l.strip()) <= set('=-')), '')
+    if re.match(r'^C\d\d seed, round \d, bug \d$', first):
+        ff = next((l for l in need if l.startswith('File / function')), '')
+        lk = next((l for l in need if l.startswith('Looks like')), '')
+        first = (ff.split(':', 1)[-1].strip() + ': ' + lk.split(':', 1)[-1].strip()).strip(': ')
     fired = [c for c, v in m.get('checks', {}).items() if v.get('fired')]
     missed = [c for c, v in m.get('checks', {}).items() if not v.get('fired')]
     keys = [re.sub(r'\s+\(\d+ occ.*', '', v['keys'][0][4:]) for c, v in m.get('checks', {}).items() if v.get('fired') and v.get('keys')]
